@@ -55,7 +55,7 @@ impl Property for C20 {
         "Cases: (LHS operand, RHS vector of any type/length or native integer, operator in {+,-,*,/,%,&,|,^,<<,>>,!}). For each case ALL forms are applied side by side: &a.&b, a.&b, &a.b, a.b, a.=&b, a.=b (6 shift forms; 2 for !); for a native x additionally the same operator with a vector built from x as Bvd, Bv and Bvf<u64,3>, and for shifts the same amount in every native type that can hold it. Oracle: every form's result equals the model result (same length, same bits, light battery) - or every form panics when the divisor is zero - and the operands re-read after all by-reference uses and after in-place operations on clones equal their pre-call snapshots (bits, bytes, capacity). Enumerated: all (n,a,m,b) n,m<=2 (quick)/<=4 (thorough) x 18x18 pairings x 8 binary operators x 6 forms, and shifts/! on all values n<=4/6 x all amounts 0..n+1 x 6 amount types x 6 forms. Non-trivial: n>0 and the result differs from a. Distinct by hash of the case.".into()
     }
     fn random_cases(&self, tier: Tier) -> u64 {
-        tier.pick(25_000, 300_000)
+        tier.pick(125000, 600000)
     }
     fn strategy(&self, tier: Tier) -> BoxedStrategy<C20Case> {
         let bin = (arb_operand(tier), arb_rhs(tier), 0usize..8).prop_map(|(a, b, o)| C20Case { a, b, op: AnyOp::Bin(BIN_OPS[o]) });
@@ -63,7 +63,7 @@ impl Property for C20 {
         let sh = (arb_operand(tier), arb_nat(), any::<u16>(), any::<bool>(), any::<bool>()).prop_map(move |(a, x, f, rel, left)| {
             // half of the amounts are placed relative to the length (0..=n+1)
             let _ = lmax;
-            let amt = if rel { Nat::new(x.ty, (frac(f, a.len() + 2) as u128).min(x.ty.max())) } else { x };
+            let amt = if rel { Nat::new(x.ty, (frac(f, a.len() + 2) as u128).min(x.ty.maxv())) } else { x };
             C20Case { a, b: Rhs::N(amt), op: if left { AnyOp::Shl } else { AnyOp::Shr } }
         });
         let not = arb_operand(tier).prop_map(|a| C20Case { a, b: Rhs::N(Nat::new(NatTy::U8, 0)), op: AnyOp::Not });
@@ -112,6 +112,16 @@ impl Property for C20 {
                         for nty in NAT_TYS {
                             for op in [AnyOp::Shl, AnyOp::Shr] {
                                 if !f(C20Case { a: Operand::canon(t, a.clone()), b: Rhs::N(Nat::new(nty, amt as u128)), op }) {
+                                    return;
+                                }
+                            }
+                        }
+                    }
+                    // amounts at and beyond the platform word, all forms side by side
+                    if n >= 1 && (n == 1 || n == ks) {
+                        for (nty, x) in [(NatTy::U128, 1u128 << 64), (NatTy::U128, (1u128 << 64) + 1), (NatTy::U128, (1u128 << 64) + n as u128 - 1), (NatTy::U128, u128::MAX), (NatTy::U64, 1u128 << 32), (NatTy::U64, u64::MAX as u128), (NatTy::Usize, usize::MAX as u128), (NatTy::U32, u32::MAX as u128)] {
+                            for op in [AnyOp::Shl, AnyOp::Shr] {
+                                if !f(C20Case { a: Operand::canon(t, a.clone()), b: Rhs::N(Nat::new(nty, x)), op }) {
                                     return;
                                 }
                             }
@@ -187,7 +197,7 @@ impl Property for C20 {
                 // the same amount in every native type that can hold it
                 let mut amts = vec![amt];
                 for nty in NAT_TYS {
-                    if nty != amt.ty && amt.v <= nty.max() {
+                    if nty != amt.ty && amt.v <= nty.maxv() {
                         amts.push(Nat::new(nty, amt.v));
                     }
                 }
